@@ -728,7 +728,7 @@ def check_c14(tier, seed, replay=None, selftest=False):
     aj = {}
     aj.update(gen_aes.gcm_oneshot_behaviours(rng, 6 * k))
     aj.update(gen_aes.gcm_stream_jobs(rng, 3 * k))
-    aj.update(gen_aes.xts_jobs(rng, 6 * k, short=False))
+    aj.update(gen_aes.xts_jobs(rng, 24 * k, short=False))
     aj.update(gen_aes.cbc_jobs(rng, 6 * k))
     aj.update(gen_aes.kexp_jobs(rng, 4 * k))
     jobs = merge_jobs(aj)
@@ -746,4 +746,63 @@ def check_c14(tier, seed, replay=None, selftest=False):
     chk.cov["samples"] = [{"job": j["name"], "behaviour": j["behaviours"][-1]} for j in jobs[:3]]
     chk.cov["traces_validated_against_impl"] = nb
     chk.assumptions += ["constant (all-equal-byte) secrets are ignored", "mask registers k0-7 are not scanned (they cannot hold 16 key bytes)"]
+    return chk.finish()
+
+
+@reg("C20")
+def check_c20(tier, seed, replay=None, selftest=False):
+    chk = verif.Check("C20", "exploration", tier, seed)
+    props = {"C20"}
+    mix = machine_mix(seed * 29 + 20, tier, small=True)
+    if replay:
+        lines = [x for x in open(replay).read().splitlines() if x and not x.startswith("#") and not x.startswith("hidden ")]
+        hdr = "\n".join(lines)
+        drv = "hash" if "hmgr" in hdr else "mh" if ("mhinit" in hdr or "rhinit" in hdr) else "aes"
+        exe, spec = {"hash": (mix[0][0], "TraceHash"), "aes": (mix[1][0], "TraceAes"), "mh": (mix[2][0], "TraceMh")}[drv]
+        mix = [(exe, spec, [hash_job("replay", [lines]) if drv == "hash" else {"name": "replay", "behaviours": [lines]}])]
+    seeds = (1000 + seed, 2000 + 7 * seed)
+    nb = ne = 0
+    alljobs = []
+
+    def twin(args):
+        exe, spec, job = args
+        d = verif.scratch("twin-" + job["name"])
+        text = ""
+        for i, b in enumerate(job["behaviours"]):
+            text += "mark %d\n" % i + "\n".join(b) + "\n"
+        traces = []
+        for k, hs in enumerate(seeds):
+            tr = os.path.join(d, "t%d.ndjson" % k)
+            rc, err = verif.run_driver(exe, "hidden %d\n" % hs + text, tr)
+            if rc:
+                raise verif.MachineryError("driver failed in twin run: " + err[-500:])
+            traces.append(tr)
+        # each execution against the deterministic spec of its domain ...
+        res = [verif.validate_trace(spec, t, env=job.get("env")) for t in traces]
+        # ... and the twin property itself
+        tw = verif.validate_trace("TraceTwin", traces[0], env={"TRACE2": traces[1]})
+        return {"job": job, "result": tw, "trace": traces[0], "single": res}
+    work = [(exe, spec, j) for exe, spec, jobs in mix for j in jobs]
+    with ThreadPoolExecutor(max_workers=WORKERS) as ex:
+        outs = list(ex.map(twin, work))
+    for o in outs:
+        nb += len(o["job"]["behaviours"])
+        ne += o["result"]["events"]
+        alljobs.append(o["job"])
+        for r in o["single"]:
+            for v in r["viol"]:
+                if v["p"] not in ("C20",):
+                    chk.other[v["p"]] = chk.other.get(v["p"], 0) + 1
+    collect(chk, outs, props, marker="Mark")
+    chk.cov["evaluations"] = ne
+    chk.cov["distinct_nontrivial"] = len({hashlib.sha1("\n".join(b).encode()).hexdigest() for j in alljobs for b in j["behaviours"]})
+    chk.cov["rule"] = ("every behaviour of the hash / AES / multi-hash / rolling-hash call spaces is executed twice with different hidden-input "
+                       "seeds: caller-saved, vector and mask registers and arithmetic flags at entry, the 64 KiB below the stack pointer, "
+                       "output-buffer prefill, and the bytes of manager / context / key-data / state objects before the API initialises "
+                       "them; both executions are validated against the deterministic spec and TraceTwin requires every observable field "
+                       "of every event (outputs, digests, tags, offsets, return codes, status words) to be identical")
+    chk.cov["samples"] = [{"job": j["name"], "behaviour": j["behaviours"][-1][:6]} for j in alljobs[:3]]
+    chk.cov["paired_executions"] = nb
+    chk.assumptions += ["hidden inputs are varied through the trampoline and the drivers' object allocation; differences in addresses "
+                        "(ASLR of the guarded mappings) are present in both executions alike"]
     return chk.finish()
